@@ -115,6 +115,7 @@ func c19Ready(svc *varlink.Service) {
 func c19Stop(svc *varlink.Service, done chan error) (error, bool) {
 	c19Ready(svc)
 	svc.Shutdown()
+	svc.Shutdown() // a second Shutdown must be harmless
 	select {
 	case err := <-done:
 		return err, true
@@ -331,7 +332,7 @@ func genC19(r *fw.Run, rng *rand.Rand, n int) []*c19Case {
 	// the grammar
 	for len(out) < n {
 		tail := tails[rng.Intn(len(tails))]
-		switch rng.Intn(22) {
+		switch rng.Intn(24) {
 		case 0:
 			add(func() string { return "unix:"+newPath()+tail }, "absolute path", "valid")
 		case 1:
@@ -386,6 +387,18 @@ func genC19(r *fw.Run, rng *rand.Rand, n int) []*c19Case {
 			add(func() string { return s }, "random", "")
 		case 21:
 			add(func() string { return "unix:;"+[]string{"", "x", "/abs"}[rng.Intn(3)] }, "semicolon right after the colon", "")
+		case 22:
+			// absolute paths whose length is around the sockaddr_un limit (107 bytes is the longest that fits)
+			add(func() string {
+				base := newPath() + "-"
+				n := 100 + rng.Intn(10)
+				for len(base) < n {
+					base += "p"
+				}
+				return "unix:" + base + tail
+			}, "path length near the limit", "")
+		case 23:
+			add(func() string { return "unix:" + newPath() + "/" + tail }, "trailing slash", "")
 		}
 	}
 	return out
